@@ -512,6 +512,13 @@ func runDelay(tier string, seed int64, shard, nshard int, r *res.Result, replay 
 			}
 		}
 		c := genDelayCase(rng, kind)
+		if kind == "filter" && i%16 == 9 {
+			// a burst far larger than anything else in the plans waits inside one delay filter at once: nothing bounds the
+			// number of datagrams a filter may hold, all of them must come out
+			c.DelayUs = 30000
+			c.Plans = [][]int{make([]int, 2500)}
+			r.Count("large_bursts_into_a_delay_filter", 1)
+		}
 		r.Eval(1)
 		key, desc := runDelayCase(c, r)
 		if key == "" && desc != "" {
